@@ -195,20 +195,28 @@ def with_prelude(cases, rng, every=4, size=None, max_size=250, overlap=False):
     a consumer that raises at its j-th item, a take(j) peek.  See progs.play_prelude."""
     r = random.Random(rng.randrange(1 << 30))
     for n, case in enumerate(cases):
-        if n % every == 1 and 'prelude' not in case:
+        if r.random() * every < 1.0 and 'prelude' not in case:     # (drawn, not `n % every`: generators cycle through their contexts with small periods)
             sz = size(case) if size else len(case.get('items', ()))
             if sz <= max_size:
                 kinds = ['dispose', 'source_error', 'consumer_raise', 'peek'] + (['overlap'] if overlap else [])
                 case = dict(case, prelude=[[r.choice(kinds), r.randint(0, max(1, sz))]
                                            for _ in range(r.randint(1, 3))])
+                if r.random() < 0.34 and isinstance(case.get('items'), list) and len(case['items']) >= 2:
+                    # the history saw MORE than the judged subscription does: the aborted runs are fed the whole stream, the judged
+                    # one only a prefix of it - or nothing at all (a live source that just completes, a drained one-shot source):
+                    # keys that were busy in the history are EMPTY in the judged run
+                    whole = case['items']
+                    m = r.choice([0, 0, len(whole) // 4])       # (drawn, not derived from n: the case order cycles through contexts with small periods)
+                    case = dict(case, items=whole[:m], prelude=[['feed', whole]] + [p for p in case['prelude'] if p[0] != 'overlap'])
         yield case
 
 
 def with_reuse(cases, every=6):
     """every `every`-th case: the judged operator OBJECT first serves a throw-away pipeline at another nesting depth
     (windows.observe(reuse=True))"""
+    r = random.Random(every * 7919 + 11)
     for n, case in enumerate(cases):
-        if n % every == 4 and len(case.get('items', ())) <= 400:
+        if r.random() * every < 1.0 and len(case.get('items', ())) <= 400:      # (drawn, not `n % every`: see with_prelude)
             case = dict(case, reuse=True)
         yield case
 
@@ -216,7 +224,9 @@ def with_reuse(cases, every=6):
 def prelude_tags(case, out):
     if case.get('prelude'):
         out.tags.append('after-aborted-subscriptions')
-        out.tags += ['prelude:' + p[0] for p in case['prelude']]
+        out.tags += ['prelude:' + p[0] for p in case['prelude'] if p[0] != 'feed']
+        if any(p[0] == 'feed' for p in case['prelude']) and len(case['prelude']) > 1:
+            out.tags.append('history-fed-more-than-the-judged-stream')
 
 
 def shrink_prelude(case):
